@@ -25,7 +25,7 @@ func init() {
 	runner.Register(&runner.Check{
 		ID:    "C06",
 		Level: "model_checking",
-		Rule: "harness = one shared WAF (rules with @rx+capture, @pm, a regex-keyed target with three configured exclusions, a ctl:ruleRemoveTargetById, a chain, setvar arithmetic, a threshold deny, audit log to one shared writer) used by 2-3 controlled threads: T1 and T2 each run one complete transaction (different requests) and close it, T3 builds and closes a second WAF that shares some patterns with the first; a fourth scenario runs the first two transactions of a freshly built WAF (lazily initialised rule state); " +
+		Rule: "harness = one shared WAF (rules with @rx+capture, @pm, a regex-keyed target with three configured exclusions, a ctl:ruleRemoveTargetById, a chain, setvar arithmetic, a threshold deny, audit log to one shared writer) used by 2-3 controlled threads: T1 and T2 each run one complete transaction (different requests) and close it, T3 builds and closes a second WAF that shares some patterns with the first; a fourth scenario runs the first two transactions of a freshly built WAF (lazily initialised rule state); further scenarios: 2 threads x 2 transactions with pooled objects recycled across threads, 2 threads each building and closing a WAF, 2 threads building WAFs that register transformation chains new to the process, and 2 complete exchanges (all 5 phases, JSON and multipart request bodies, JSON and text response bodies, ~30 operator / transformation families incl. @detectSQLi, @detectXSS, @ipMatch, @pmFromDataset, @restpath, @validateNid, macros in operator arguments, every audit part) on one shared WAF; " +
 			"every interleaving at every operation of the sync / atomic / singleflight / pool shims is explored depth-first up to the preemption bound (2 transactions: 3 quick / 4 thorough; with the WAF-building thread: 2 quick / 3 thorough; transaction + WAF build and fresh WAF: 2 quick / 3 thorough), with an extra scheduling point between the API calls of a transaction, in the default and the multiphase build, every execution under the race detector (hand-off invisible to it); " +
 			"oracle per execution: no race report, no deadlock, no panic, every thread's outcome and the multiset of audit records equal the outcomes of the threads run alone. states = scheduling-tree nodes (choice points executed), transitions = scheduling steps, traces = complete schedules",
 		Assumptions: []string{
@@ -61,6 +61,79 @@ SecRule ARGS "@rx ^x(\d+)" "id:1,phase:2,pass,log,capture,t:lowercase"
 SecRule ARGS "@pm foo bar" "id:2,phase:2,pass,log,t:trim"
 SecRule ARGS:/^a/ "@rx z+" "id:3,phase:2,pass,log,t:removeWhitespace"
 `
+
+// wideConf: one rule per stateful or table-driven operator and transformation family, all five phases,
+// body processors on both sides, macros in operator arguments and log fields, and every audit part.
+const wideConf = `SecRuleEngine On
+SecRequestBodyAccess On
+SecResponseBodyAccess On
+SecResponseBodyMimeType text/plain application/json
+SecAuditEngine On
+SecAuditLogType verifcap
+SecAuditLog /dev/null
+SecAuditLogParts ABCEFHIJKZ
+SecDataset ds ` + "`" + `
+foo
+bar
+` + "`" + `
+SecAction "id:100,phase:1,pass,nolog,setvar:tx.k=oo,setvar:tx.lim=3,initcol:ip=%{REMOTE_ADDR},setenv:C06K=v"
+SecRule REQUEST_HEADERS:Content-Type "@rx ^application/json" "id:101,phase:1,pass,nolog,ctl:requestBodyProcessor=JSON"
+SecRule REMOTE_ADDR "@ipMatch 10.0.0.0/8,192.168.0.1" "id:102,phase:1,pass,log,msg:'ip %{REMOTE_ADDR}',tag:t1,severity:4"
+SecRule REQUEST_URI "@restpath /p/{id}" "id:103,phase:1,pass,log,logdata:'%{ARGS_PATH.id}'"
+SecRule REQUEST_HEADERS:User-Agent "@pmFromDataset ds" "id:104,phase:1,pass,log,capture,msg:'ua %{TX.0}'"
+SecRule REQUEST_COOKIES "@validateNid cl \d{7,8}-[\dk]" "id:105,phase:1,pass,log"
+SecRule ARGS "@detectSQLi" "id:110,phase:2,pass,log,t:urlDecodeUni,t:htmlEntityDecode,msg:'sqli %{MATCHED_VAR_NAME}'"
+SecRule ARGS "@detectXSS" "id:111,phase:2,pass,log,t:jsDecode,t:cssDecode,t:removeNulls"
+SecRule ARGS "@validateByteRange 32-126" "id:112,phase:2,pass,log,t:base64Decode"
+SecRule ARGS "@validateUtf8Encoding" "id:113,phase:2,pass,log,multiMatch,t:hexDecode,t:lowercase"
+SecRule ARGS "@validateUrlEncoding" "id:114,phase:2,pass,log"
+SecRule ARGS "@within select,foo,bar" "id:115,phase:2,pass,log,t:compressWhitespace,t:trim"
+SecRule ARGS "@contains %{tx.k}" "id:116,phase:2,pass,log,t:cmdLine"
+SecRule ARGS "@beginsWith %{tx.k}" "id:117,phase:2,pass,log,t:normalizePath,t:normalizePathWin"
+SecRule ARGS "@endsWith oo" "id:118,phase:2,pass,log,t:replaceComments,t:removeCommentsChar"
+SecRule &ARGS "@ge %{tx.lim}" "id:119,phase:2,pass,log,setvar:tx.many=1"
+SecRule ARGS "@strmatch foo" "id:120,phase:2,pass,log,t:sha1,t:hexEncode,t:length"
+SecRule ARGS|REQUEST_COOKIES "@pm foo bar select" "id:121,phase:2,pass,log,capture,setvar:tx.n=+1"
+SecRule FILES|FILES_NAMES "@rx \\.(php|txt)$" "id:122,phase:2,pass,log,capture,logdata:'%{TX.1}'"
+SecRule REQUEST_BODY|XML:/* "@rx se(le)ct" "id:123,phase:2,pass,log,capture,t:utf8toUnicode,t:urlDecode"
+SecRule TX:n "@gt 0" "id:124,phase:2,pass,log,chain,msg:'n=%{TX.n}'"
+  SecRule TX:many "@ge 1" "t:none,setvar:tx.chain=%{TX.many}"
+SecRule RESPONSE_HEADERS:X-R "@rx (?i)^r(\d)" "id:130,phase:3,pass,log,capture,setvar:tx.r=%{TX.1}"
+SecRule RESPONSE_STATUS "@within 200,404" "id:131,phase:3,pass,log"
+SecRule RESPONSE_BODY "@rx lea(k)" "id:140,phase:4,pass,log,capture,msg:'leak %{TX.1}'"
+SecRule RESPONSE_ARGS|RESPONSE_BODY "@contains secret" "id:141,phase:4,pass,log,t:lowercase"
+SecRule TX "@unconditionalMatch" "id:150,phase:5,pass,log,msg:'end %{HIGHEST_SEVERITY} %{TX.n}'"
+`
+
+var wideReqs = []scen.Req{
+	{Method: "POST", URI: "/p/77?a=1%27%20or%201=1--&b=%3Cscript%3Ealert(1)%3C/script%3E&c=Zm9v&d=%zz",
+		Headers:     [][2]string{{"Content-Type", "application/json"}, {"User-Agent", "foo agent"}, {"Cookie", "rut=11111111-1; x=bar"}},
+		Body:        `{"q":"select","l":[1,"foo"],"o":{"k":"  foo  "}}`,
+		Status:      200,
+		RespHeaders: [][2]string{{"Content-Type", "application/json"}, {"X-R", "r5"}},
+		RespBody:    `{"data":"a SECRET leak"}`},
+	{Method: "POST", URI: "/p/9?e=%c3%28&f=/a/../b&g=fo/**/o",
+		Headers:     [][2]string{{"Content-Type", "multipart/form-data; boundary=B"}, {"User-Agent", "bar"}, {"Cookie", "y=select"}},
+		Body:        "--B\r\nContent-Disposition: form-data; name=\"f\"; filename=\"x.php\"\r\nContent-Type: text/plain\r\n\r\nselect\r\n--B\r\nContent-Disposition: form-data; name=\"h\"\r\n\r\nfoo\r\n--B--\r\n",
+		Status:      404,
+		RespHeaders: [][2]string{{"Content-Type", "text/plain"}, {"X-R", "R7"}},
+		RespBody:    "no leak here, only a secret"},
+}
+
+// wideOutcome drives one complete exchange (all five phases) with a scheduling point after every phase call.
+func wideOutcome(w coraza.WAF, i int) string {
+	o := scen.Run(w, wideReqs[i], scen.Options{Vars: true})
+	var sb strings.Builder
+	sb.WriteString(o.Core())
+	for _, m := range o.Matched {
+		fmt.Fprintf(&sb, "msg %d %q\n", m.ID, m.Msg)
+	}
+	fmt.Fprintf(&sb, "calls=%v\n", o.Calls)
+	for _, n := range []string{"TX/TX", "HighestSeverity/HIGHEST_SEVERITY", "RequestBody/REQUEST_BODY", "ResponseBody/RESPONSE_BODY"} {
+		fmt.Fprintf(&sb, "%s=%v\n", n, o.Vars[n])
+	}
+	return sb.String()
+}
 
 var reqs = []scen.Req{
 	{URI: "/p?a=X7&b=1&c=2&a4=y&a9=y"},
@@ -220,7 +293,26 @@ func run(c *runner.Ctx) {
 		{"2 threads x 2 transactions, pooled objects recycled across threads", 24, b3 - 1},
 		{"2 threads each building and closing a WAF with shared patterns", 33, b3},
 		{"2 threads building WAFs that introduce new transformation chains, then one WAF using both chains", 44, b3},
+		{"2 complete exchanges (5 phases, both body processors, 30 operator / transformation families) on one shared WAF", 55, b3 + 1},
 	}
+	wide, err := scen.Build(wideConf)
+	if err != nil {
+		panic("C06: wide configuration: " + err.Error())
+	}
+	defer scen.Close(wide)
+	auditcap.Take()
+	wideSolo := []string{wideOutcome(wide, 0), wideOutcome(wide, 1)}
+	wideAudit := sortedAudit()
+	for i := range wideSolo {
+		if again := wideOutcome(wide, i); again != wideSolo[i] {
+			panic("C06: wide solo outcome not reproducible:\n" + again + "---\n" + wideSolo[i])
+		}
+		if strings.Count(wideSolo[i], "rule ") < 12 {
+			panic("C06: wide request fires too few rules (vacuous scenario):\n" + wideSolo[i])
+		}
+	}
+	auditcap.Take()
+	c.RaceReports()
 	for si, sc := range scenarios {
 		// the scenarios are split over the workers of a variant by schedule prefix: the
 		// first scheduling choices select the shard
@@ -285,6 +377,13 @@ func run(c *runner.Ctx) {
 					func() { out[0] = outcome(wx, 0); out[0] = outcome(wx, 0) },
 					func() { out[1] = outcome(wx, 1); out[1] = outcome(wx, 1) },
 				}
+			case 55:
+				scen.YieldBetweenCalls = true
+				defer func() { scen.YieldBetweenCalls = false }()
+				chosen = []func(){
+					func() { out[0] = wideOutcome(wide, 0) },
+					func() { out[1] = wideOutcome(wide, 1) },
+				}
 			case 3:
 				chosen = bodies
 			case 12:
@@ -331,6 +430,13 @@ func run(c *runner.Ctx) {
 					}
 				case 33:
 					want = ""
+				case 55:
+					want = wideAudit
+					for i := 0; i < 2; i++ {
+						if out[i] != wideSolo[i] {
+							report("cross-talk", fmt.Sprintf("exchange %d under this schedule:\n%s--- alone:\n%s", i, out[i], wideSolo[i]))
+						}
+					}
 				case 12:
 					if out[0] != solo[0] {
 						report("cross-talk", fmt.Sprintf("transaction 0 under this schedule:\n%s--- alone:\n%s", out[0], solo[0]))
